@@ -434,41 +434,72 @@ def nilVersion {α} : Res α → Res α
   | .error (.panic w) => .error (.panic w)
   | .error _ => .error (.panic "nil version")
 
-/-- `Encoder_encode(content, ecLevel, hints)` -/
-def encode (K : Kernels) (inp : EncInput) : Res EncTrace := do
+/-- `versionHint.(int)`, else `strconv.Atoi(versionHint.(string))` (0 on error), else 0 -/
+def versionHintInt (h : HintVal) : Int :=
+  match h with
+  | .int n => n
+  | .str s => (atoi? s).getD 0
+  | _ => 0
+
+/-- the GS1_FORMAT hint: `gs1FormatHint.(bool)`, else `strconv.ParseBool(gs1FormatHint.(string))`, else false -/
+def gs1OfHint (h : Option HintVal) : Bool :=
+  match h with
+  | some (.bool b) => b
+  | some (.str s) => parseBool s
+  | _ => false
+
+/-- the CHARACTER_SET hint: unknown name -> WriterException; otherwise is the encoding Shift_JIS? -/
+def charsetIsSJIS (inp : EncInput) : Res Bool :=
+  match inp.charset with
+  | some cs => if cs.known then pure cs.isSJIS else .error .writer
+  | none => pure false
+
+/-- `if mode == Mode_BYTE && hasEncodingHint { eci, ok := GetCharacterSetECI(encoding); if ok && eci != nil { appendECI } }` -/
+def eciHeader (inp : EncInput) (mode : Mode) : Bits :=
+  if mode = .byte ∧ inp.charset.isSome then
+    match inp.charset.bind (·.eciValue) with
+    | some v => appendECI v []
+    | none => []
+  else []
+
+/-- the header segments `Encoder_encode` writes before the character count: ECI (byte mode with a CHARACTER_SET
+    hint whose ECI is registered), FNC1 in first position (GS1_FORMAT), the mode indicator -/
+def headerOf (inp : EncInput) (mode : Mode) : Bits :=
+  let headerBits := eciHeader inp mode
+  let headerBits := if gs1OfHint inp.gs1 then appendModeInfo 5 headerBits else headerBits
+  appendModeInfo mode.indicator headerBits
+
+/-- `numLetters`: `len(content)`, in byte mode `dataBits.GetSizeInBytes()`, in Kanji mode the rune count -/
+def numLettersOf (inp : EncInput) (mode : Mode) (dataBits : Bits) : Int :=
+  match mode with
+  | .byte => sizeInBytes dataBits
+  | .kanji => inp.runeCount
+  | _ => inp.content.length
+
+/-- what `Encoder_encode` has settled before it terminates the bit stream -/
+structure FrontResult where
+  ec : EC
+  mode : Mode
+  headerBits : Bits
+  dataBits : Bits
+  version : VersionInfo
+  headerAndDataBits : Bits
+
+/-- `Encoder_encode(content, ecLevel, hints)`, first half: level check, character set, mode, header segments,
+    data bits, version (QR_VERSION hint or recommendVersion), character count -/
+def encodeFront (inp : EncInput) : Res FrontResult := do
   let ec ← match ecOfInt inp.ecLevel with
     | some ec => pure ec
     | none => .error .writer
   -- character set
-  let hasEncodingHint := inp.charset.isSome
-  let isSJIS ← match inp.charset with
-    | some cs => if cs.known then pure cs.isSJIS else .error .writer
-    | none => pure false
+  let isSJIS ← charsetIsSJIS inp
   let mode ← chooseMode inp.content isSJIS inp.sjis
-  -- header
-  let headerBits : Bits := []
-  let headerBits := if mode = .byte ∧ hasEncodingHint then
-      match inp.charset.bind (·.eciValue) with
-      | some v => appendECI v headerBits
-      | none => headerBits
-    else headerBits
-  let headerBits := match inp.gs1 with
-    | some h =>
-      let appendGS1 := match h with
-        | .bool b => b
-        | .str s => parseBool s
-        | _ => false
-      if appendGS1 then appendModeInfo 5 headerBits else headerBits
-    | none => headerBits
-  let headerBits := appendModeInfo mode.indicator headerBits
+  let headerBits := headerOf inp mode
   let dataBits ← appendBytes inp.content mode inp.encoded inp.sjis []
   -- version
   let version ← match inp.version with
     | some h => do
-      let versionNumber : Int := match h with
-        | .int n => n
-        | .str s => (atoi? s).getD 0
-        | _ => 0
+      let versionNumber : Int := versionHintInt h
       let version ← match QRVersionChoice.getVersionForNumber tables versionNumber with
         | .ok v => pure v
         | .error (.panic w) => .error (.panic w)
@@ -478,34 +509,47 @@ def encode (K : Kernels) (inp : EncInput) : Res EncTrace := do
       pure version
     | none => QRVersionChoice.recommendVersion tables ec mode headerBits.length dataBits.length
   let headerAndDataBits := headerBits
-  let numLetters : Int := match mode with
-    | .byte => sizeInBytes dataBits
-    | .kanji => inp.runeCount
-    | _ => inp.content.length
+  let numLetters : Int := numLettersOf inp mode dataBits
   let headerAndDataBits ← appendLengthInfo numLetters version mode headerAndDataBits
   let headerAndDataBits := headerAndDataBits ++ dataBits
-  let ecBlocks ← QRVersionChoice.ecBlocksForLevel version ec
-  let numDataBytes : Int := (version.total : Int) - (QRVersionChoice.totalECCodewords ecBlocks : Int)
-  let terminated ← terminateBits numDataBytes headerAndDataBits
-  let finalBits ← interleaveWithECBytes K terminated version.total numDataBytes (QRVersionChoice.numBlocksOf ecBlocks)
-  let dimension : Int := 17 + 4 * (version.number : Int)
+  pure { ec := ec, mode := mode, headerBits := headerBits, dataBits := dataBits, version := version,
+         headerAndDataBits := headerAndDataBits }
+
+/-- `switch mask := hintMaskPattern.(type)`: int, or a string `strconv.Atoi` accepts; otherwise -1 stays -/
+def maskHintInt (h : HintVal) : Int :=
+  match h with
+  | .int n => n
+  | .str s => (atoi? s).getD (-1)
+  | _ => -1
+
+/-- the QR_MASK_PATTERN hint: a valid pattern, or -1 (choose automatically) -/
+def maskOfHint (h : Option HintVal) : Int :=
+  match h with
+  | some h => if isValidMaskPattern (maskHintInt h) then maskHintInt h else -1
+  | none => -1
+
+/-- second half: terminateBits, interleaveWithECBytes, mask pattern (hint or chooseMaskPattern), buildMatrix -/
+def encodeBack (K : Kernels) (maskHint : Option HintVal) (f : FrontResult) : Res EncTrace := do
+  let ecBlocks ← QRVersionChoice.ecBlocksForLevel f.version f.ec
+  let numDataBytes : Int := (f.version.total : Int) - (QRVersionChoice.totalECCodewords ecBlocks : Int)
+  let terminated ← terminateBits numDataBytes f.headerAndDataBits
+  let finalBits ← interleaveWithECBytes K terminated f.version.total numDataBytes (QRVersionChoice.numBlocksOf ecBlocks)
+  let dimension : Int := 17 + 4 * (f.version.number : Int)
   let matrix ← newByteMatrix dimension dimension
-  let maskPattern : Int := match inp.mask with
-    | some h =>
-      let mp : Int := match h with
-        | .int n => n
-        | .str s => (atoi? s).getD (-1)
-        | _ => -1
-      if isValidMaskPattern mp then mp else -1
-    | none => -1
+  let maskPattern := maskOfHint maskHint
   let (maskPattern, pens, matrix) ← if maskPattern = -1 then
-      chooseMaskPattern K finalBits ec version.number matrix
+      chooseMaskPattern K finalBits f.ec f.version.number matrix
     else pure (maskPattern, [], matrix)
   -- `_ = MatrixUtil_buildMatrix(...)`: a (non-panic) error here would be dropped by the Go code and the
   -- half-built matrix returned; the model reports it as an error (never happens: `mirror_encode_eq_ref`)
-  let matrix ← buildMatrix K finalBits ec version.number maskPattern matrix
-  pure { mode := mode, headerBits := headerBits, dataBits := dataBits, version := version.number,
-         headerAndDataBits := headerAndDataBits, terminated := terminated, finalBits := finalBits,
+  let matrix ← buildMatrix K finalBits f.ec f.version.number maskPattern matrix
+  pure { mode := f.mode, headerBits := f.headerBits, dataBits := f.dataBits, version := f.version.number,
+         headerAndDataBits := f.headerAndDataBits, terminated := terminated, finalBits := finalBits,
          penalties := pens, maskPattern := maskPattern, matrix := matrix }
+
+/-- `Encoder_encode(content, ecLevel, hints)` -/
+def encode (K : Kernels) (inp : EncInput) : Res EncTrace := do
+  let f ← encodeFront inp
+  encodeBack K inp.mask f
 
 end Gzx.QREnc
